@@ -468,6 +468,10 @@ KEEP += [
 ]
 
 MUTANTS.append(('M88', PY, "              c3: {}\\n  \\", "              c3: {:.3}\\n  \\", 'C19', 'R19.2', 'c3 written with three decimals'))
+MUTANTS.append(('M89', U, '            _ => Err(format!("More than one non-zero value in URDF offset {:?}", self).to_string()),',
+                '            _ => Ok(non_zero_values[0]),', 'C20', 'R20.9', 'an origin with several non-zero components silently yields the first one'))
+MUTANTS.append(('M90', U, "                        opw_parameters.c3 = non_zero(joint.vector.x, joint.vector.y)?;",
+                "                        opw_parameters.c3 = non_zero(joint.vector.x, joint.vector.z)?;", 'C20', 'R20.9', 'c3 of joint 4 read from x/z (a2 sits on z)'))
 
 # ---- seventh batch: the URDF reader
 KEEP += [
@@ -710,6 +714,4 @@ OPEN_REWRITES = {
     'R13-2': 'ancestor walk by iter::successors, path assembly by rev().chain().collect(), orientation tested on the other tree: R13.3 reads the two walks, reverse and append',
     'R15-4': 'Jacobian columns as [Vector6; 6] from array::from_fn assembled with from_columns: R15.1 reads the (position, rotation) pair and the two copy_from',
     'R17-2': 'source and target bases through orthonormal_basis(o, x, y) -> Option<Matrix3> and ok_or_else(..)?: R17.1/R17.2 read the two column triples',
-    'R20-1': 'axis sign and offset readers match the first two items of a filtered iterator, xyz destructured by a slice pattern: R20.7 reads filter/map/len() == 1 (see also K103), the census the indexed form',
-    'R20-4': 'convert_to_map through the HashMap entry() API, to_robot through parameters()/constraints(): R20.3 and R20.2 read get/insert and the direct Constraints::new',
 }
